@@ -93,6 +93,20 @@ class CompositeTransform(SpatialTransform):
         super().__init__(grid)
         self._transforms = ModuleDict(transforms)
 
+    def __copy__(self: TCompositeTransform) -> TCompositeTransform:
+        r"""Make shallow copy of this transformation with shallow copies of its child transformations.
+
+        The child transformations of the copy share their parameters with those of this transformation,
+        but in-place operations such as ``grid_()`` or ``condition_()`` applied to the shallow copy of this
+        composite transformation will not modify the child transformations of the original.
+
+        """
+        copy = super().__copy__()
+        copy._transforms = ModuleDict(
+            OrderedDict([(name, shallow_copy(t)) for name, t in self.named_transforms()])
+        )
+        return copy
+
     def bool(self) -> bool:
         r"""Whether this module has at least one transformation."""
         return len(self._transforms) > 0
